@@ -418,6 +418,12 @@ func TestVerifC07Stack(t *testing.T) {
 		return r, r.Id == id, qok
 	}
 	nclients := 8
+	lost := 0
+	defer func() {
+		if lost > 40 {
+			t.Fatalf("%d requests got no reply at all: the laboratory is not usable", lost)
+		}
+	}()
 	per := vhEnvInt("VERIF_PER", 150)
 	rounds := vhEnvInt("VERIF_ROUNDS", 2)
 	for round := 0; round < rounds; round++ {
@@ -452,6 +458,12 @@ func TestVerifC07Stack(t *testing.T) {
 		for c := 0; c < nclients; c++ {
 			for i, j := range jobs[c] {
 				if j.netw == "tcp-abort" {
+					continue
+				}
+				if j.conc == nil {
+					// no reply at all within the client's patience (a machine loaded by other jobs): whether
+					// every query is answered is C01's business; there is nothing to compare here
+					lost++
 					continue
 				}
 				seq, _, _ := exchange(j, uint16(c*1000+i+1))
